@@ -152,6 +152,7 @@ var (
 	hists  = map[string]map[string]int{}
 	nviolK = map[string]int{}
 	cfgBits = "101111"
+	decideRule = "fixed"
 )
 
 func count(k string, n int) { outMu.Lock(); stats[k] += n; outMu.Unlock() }
@@ -230,7 +231,8 @@ func featureOf(p *Program, lbl string) string {
 const envErr = "function environment" // "computing function environment: …", "comparing function environments: …"
 
 type judgeOpts struct {
-	maxMuts int
+	maxMuts    int
+	maxRebuild int
 	corr    bool
 	build   bool
 	timeout time.Duration
@@ -487,6 +489,79 @@ func judge(p *Program, dir string, r *rng, o judgeOpts, only *Mutation) {
 			}
 		}
 	}
+	// 5. the USE of the fingerprint (property C01: a target has executed since the latest change to what its function
+	// references): after an edit that changes the fingerprint, the next build re-executes the affected targets.
+	if o.build && only == nil || (o.build && only != nil && only.Kind == "sens") {
+		var pick []Mutation
+		for _, m := range p.Muts {
+			if m.Kind == "sens" && (m.Feature == "eqdistinct" || strings.Contains(m.What, "equal but distinct") || strings.Contains(m.What, "negative zero")) {
+				pick = append(pick, m)
+			}
+		}
+		var rest []Mutation
+		for _, m := range p.Muts {
+			if m.Kind == "sens" {
+				rest = append(rest, m)
+			}
+		}
+		if len(rest) > 0 {
+			pick = append(pick, rest[r.below(len(rest))])
+		}
+		if len(pick) > o.maxRebuild {
+			pick = pick[:o.maxRebuild]
+		}
+		if only != nil {
+			pick = []Mutation{*only}
+		}
+		for i := range pick {
+			m := pick[i]
+			orig := p.Files[m.File]
+			if strings.Count(orig, m.Old) != 1 {
+				continue
+			}
+			// records of the unedited tree
+			os.RemoveAll(filepath.Join(dir, ".dawn"))
+			b0 := runChild(dir, "build", "fwd", false, false, p.Flags, o.timeout)
+			count("child_runs", 1)
+			if b0.status != "ok" {
+				break
+			}
+			os.WriteFile(filepath.Join(dir, m.File), []byte(strings.Replace(orig, m.Old, m.New, 1)), 0644)
+			b1 := runChild(dir, "build", "fwd", false, false, p.Flags, o.timeout)
+			os.WriteFile(filepath.Join(dir, m.File), []byte(orig), 0644)
+			count("child_runs", 1)
+			if b1.status != "ok" || b1.loadErr != "" {
+				hist("rebuild_skipped", m.Feature)
+				continue
+			}
+			for _, t := range m.Targets {
+				evs, ok := b1.events[t]
+				if !ok {
+					hist("rebuild_skipped", m.Feature)
+					continue
+				}
+				ran, dep, up := false, false, false
+				for _, ev := range evs {
+					switch {
+					case ev[0] == "evaluating":
+						ran = true
+					case (ev[0] == "failed" || ev[0] == "run-error") && strings.Contains(ev[1], "dependency"):
+						dep = true
+					case ev[0] == "uptodate":
+						up = true
+					}
+				}
+				if dep && !ran {
+					continue
+				}
+				count("rebuild_after_edit_targets", 1)
+				if !ran && up {
+					violation("stale-after-edit", m.Feature, t, "use of the fingerprint (property C01): after the edit ("+m.What+
+						") the build reports the target up to date and does not re-execute it, although its fingerprint changed", p, &m)
+				}
+			}
+		}
+	}
 	hist("outcome", "judged")
 }
 
@@ -512,6 +587,7 @@ func main() {
 	scratch := flag.String("scratch", "", "scratch directory (removed afterwards by the caller)")
 	cfg := flag.String("cfg", "101111", "model configuration bits (see lean/Driver/Env.lean)")
 	budget := flag.Int("budget", 0, "seconds for the program loop (0 = tier default)")
+	decideFlag := flag.String("decide", "fixed", "which diffEnv the tree has: old | d16 | fixed")
 	kindsFlag := flag.String("kinds", "", "comma separated unit kinds: judge one program made of exactly these units")
 	flag.Parse()
 
@@ -524,6 +600,7 @@ func main() {
 	}
 	selfExe, _ = os.Executable()
 	cfgBits = *cfg
+	decideRule = *decideFlag
 	defer out.Flush()
 	if *scratch == "" {
 		*scratch, _ = os.MkdirTemp("", "verif-env-")
@@ -538,7 +615,7 @@ func main() {
 			os.Exit(2)
 		}
 		p := &Program{Files: c.Files, Flags: c.Flags, Features: []string{"replay"}}
-		judge(p, filepath.Join(*scratch, "replay"), &rng{*seed}, judgeOpts{maxMuts: 100, corr: true, build: true, timeout: timeout}, c.Mutation)
+		judge(p, filepath.Join(*scratch, "replay"), &rng{*seed}, judgeOpts{maxMuts: 100, maxRebuild: 4, corr: true, build: true, timeout: timeout}, c.Mutation)
 		b, _ := json.Marshal(stats)
 		fmt.Fprintf(out, "S\t%s\n", b)
 		return
@@ -546,7 +623,7 @@ func main() {
 
 	if *kindsFlag != "" {
 		p := genProgram(&rng{*seed}, 0, strings.Split(*kindsFlag, ","))
-		judge(p, filepath.Join(*scratch, "kinds"), &rng{*seed}, judgeOpts{maxMuts: 100, corr: true, build: true, timeout: timeout}, nil)
+		judge(p, filepath.Join(*scratch, "kinds"), &rng{*seed}, judgeOpts{maxMuts: 100, maxRebuild: 4, corr: true, build: true, timeout: timeout}, nil)
 		b, _ := json.Marshal(map[string]any{"counts": stats, "histograms": hists})
 		fmt.Fprintf(out, "S\t%s\n", b)
 		return
@@ -554,9 +631,9 @@ func main() {
 
 	start := time.Now()
 	limit := 40 * time.Second
-	nprog, maxMuts := 100000, 5
+	nprog, maxMuts, maxRebuild := 100000, 5, 2
 	if *tier == "thorough" {
-		limit, maxMuts = 480*time.Second, 14
+		limit, maxMuts, maxRebuild = 480*time.Second, 14, 4
 	}
 	if *budget > 0 {
 		limit = time.Duration(*budget) * time.Second
@@ -584,7 +661,7 @@ func main() {
 			if c.Mutation != nil {
 				p.Muts = []Mutation{*c.Mutation}
 			}
-			judge(p, filepath.Join(*scratch, fmt.Sprintf("corpus%d", i)), &rng{*seed}, judgeOpts{maxMuts: 100, corr: true, build: true, timeout: timeout}, c.Mutation)
+			judge(p, filepath.Join(*scratch, fmt.Sprintf("corpus%d", i)), &rng{*seed}, judgeOpts{maxMuts: 100, maxRebuild: 4, corr: true, build: true, timeout: timeout}, c.Mutation)
 			count("corpus_cases", 1)
 		}
 	}
@@ -607,7 +684,7 @@ func main() {
 			for j := range jobs {
 				r := &rng{*seed*1000003 + uint64(j.idx)*7919 + 17}
 				judge(j.p, filepath.Join(*scratch, fmt.Sprintf("p%d", j.idx)), r,
-					judgeOpts{maxMuts: maxMuts, corr: j.idx%3 == 0 || j.idx < 200, build: true, timeout: timeout}, nil)
+					judgeOpts{maxMuts: maxMuts, maxRebuild: maxRebuild, corr: j.idx%3 == 0 || j.idx < 200, build: true, timeout: timeout}, nil)
 			}
 		}(w)
 	}
